@@ -12,7 +12,7 @@ import (
 func init() { register("C16", checkC16) }
 
 func checkC16(r *Run) {
-	r.Explain = "Decides three narrow structural clauses of C16, and says plainly that rendering is not decided: A22 determinism — no map iteration order reaches the output: inside a range over a map nothing is written to a buffer or writer, and a slice filled in such a loop is sorted (sort.Strings / sort.Slice, possibly through a helper, whose comparator falls back to `<` on the two names) on every path before any other use; LEN on the success path ConsoleWriter.Write reports len(p) of the input (in the JSON build the decode hook is the identity); LEN also: no return with a nil error skips writing the line; QUOTE the predicate choosing between verbatim and strconv.Quote rendering is a byte scan whose per-byte decision, evaluated over all 256 byte values from its branch conditions, is true exactly for control, non-ASCII, space, backslash and quote bytes, and its call site quotes on the true branch only; TIMELOC every Format call of the default timestamp formatter is applied to a time that went through In(TimeLocation) on that path; ONCE the field-collecting loop appends each non-excluded, non-part key exactly once per iteration, and the output loop ranges over all collected fields without early exit and writes each name exactly once. A13d (shared with C06): the pooled buffer is emptied before it is returned; LVLTAB (shared with C04): the level tables behind ParseLevel; nested values are re-encoded with InterfaceMarshalFunc. TIMELOC also: the event's time text is parsed in the configured location (not time.Local/UTC). TSFMT (binary build): the decoder renders a fractional timestamp with a layout that has a fractional-seconds element (what ConsoleWriter is given in that build). CONFIG: NewConsoleWriter stores exported configuration fields only (no cache derived from the configuration at construction). TSFMT also checks that seconds and nanoseconds of a decoded float timestamp come from one split. Binary build: the decoder's A23/READERR rules (C17) are run here too. TIMELOC raw-text-only-on-parse-error: the event's own time text is shown only after a failed parse. A23c: element accesses and slicings in the console's small text helpers are covered by a test on the length of the very object sliced."
+	r.Explain = "Decides three narrow structural clauses of C16, and says plainly that rendering is not decided: A22 determinism — no map iteration order reaches the output: inside a range over a map nothing is written to a buffer or writer, and a slice filled in such a loop is sorted (sort.Strings / sort.Slice, possibly through a helper, whose comparator falls back to `<` on the two names) on every path before any other use; LEN on the success path ConsoleWriter.Write reports len(p) of the input (in the JSON build the decode hook is the identity); LEN also: no return with a nil error skips writing the line; QUOTE the predicate choosing between verbatim and strconv.Quote rendering is a byte scan whose per-byte decision, evaluated over all 256 byte values from its branch conditions, is true exactly for control, non-ASCII, space, backslash and quote bytes, and its call site quotes on the true branch only; TIMELOC every Format call of the default timestamp formatter is applied to a time that went through In(TimeLocation) on that path; ONCE the field-collecting loop appends each non-excluded, non-part key exactly once per iteration, and the output loop ranges over all collected fields without early exit and writes each name exactly once. A13d (shared with C06): the pooled buffer is emptied before it is returned; LVLTAB (shared with C04): the level tables behind ParseLevel; nested values are re-encoded with InterfaceMarshalFunc. TIMELOC also: the event's time text is parsed in the configured location (not time.Local/UTC). TSFMT (binary build): the decoder renders a fractional timestamp with a layout that has a fractional-seconds element (what ConsoleWriter is given in that build). CONFIG: NewConsoleWriter stores exported configuration fields only (no cache derived from the configuration at construction). TSFMT also checks that seconds and nanoseconds of a decoded float timestamp come from one split. Binary build: the decoder's A23/READERR rules (C17) are run here too. TIMELOC raw-text-only-on-parse-error: the event's own time text is shown only after a failed parse. A23c: element accesses and slicings in the console's small text helpers are covered by a test on the length of the very object sliced. WIDTH (C08's rule, binary build): decoded integers are printed at full 64-bit width."
 	r.NotDec = "Most of C16: value rendering, quoting (needsQuote / strconv.Quote), part formatting, the error-first move and the known disappearance of a field named \"\" when an error field is present (a sentinel collision that no non-brittle structural rule captures). These are value-level. cmd/prettylog (package main, a command-line front end that feeds ConsoleWriter line by line) is not read by any rule."
 	r.Assume = []string{"encoding/json decodes the event faithfully"}
 	p := r.Use("J")
